@@ -24,8 +24,8 @@ def run(tier, seed, replay=None):
                 raise vlib.Infra("family stall did not build up a backlog of more than 64 notifications")
     lines = lines + more
     ck.cov["listener_sequences_checked"] = nseq
-    ck.cov["rule"] = ("seeded random schedules with two listeners registered (and one cancelled) at random points between announcements and syncs; listeners never "
-                      "read until the end of the run (stalled readers) while every sync step must still complete under the scheduler's watchdog; TLC validates that "
+    ck.cov["rule"] = ("seeded random schedules with two listeners registered (and one cancelled) at random points between announcements and syncs; in half of the runs the listeners never "
+                      "read until the end of the run (stalled readers), in the other half they are read by fast and slow reader goroutines as the run goes on, while every sync step must still complete under the scheduler's watchdog; TLC validates that "
                       "each notification taken by the distributor is the oldest pending one of its publisher, and that each listener's received sequence "
                       "(publisher, CID, count, error) equals what was forwarded while it was in the distributor's list, and that its channel was closed; family 'faults' adds failing syncs (error notifications), family 'close' "
                       "concurrent Close calls at random points (a sync aborted by Close still sends its notification before the channels are closed), family 'stall' "
